@@ -164,6 +164,16 @@ class Opaque(object):
         return 'Opaque(%s)' % self.desc
 
 
+class ModuleV(object):
+    """An imported module the interpreter knows nothing about."""
+
+    def __init__(self, name):
+        self.name = name
+
+    def __repr__(self):
+        return 'Module(%s)' % self.name
+
+
 class _NP(object):
     def __repr__(self):
         return 'numpy'
@@ -287,6 +297,10 @@ class Interp(object):
         return env
 
     def lookup_global(self, name, env):
+        if self.hooks is not None:
+            r = self.hooks.on_name(self, name)
+            if r is not NotImplemented:
+                return r
         if name in ('np', 'numpy'):
             return NPV
         if name in ('copy', 'deepcopy'):
@@ -536,6 +550,8 @@ class Interp(object):
             return self.ufunc_attr(obj, name)
         if obj is NPV:
             return self.np_attr(name)
+        if isinstance(obj, ModuleV):
+            return ModuleV(obj.name + '.' + name)
         if isinstance(obj, ClassV):
             dc, m = self.model.lookup(obj.ci, name)
             if isinstance(m, ast.FunctionDef):
@@ -669,6 +685,20 @@ class Interp(object):
             if v.space.is_real and name == 'real':
                 return v
             raise Undecided('real/imag view of a vector')
+        if 'LinearSpaceElement' in self.model.classes:
+            ci = self.model.get('LinearSpaceElement')
+            dc, m = self.model.lookup(ci, name)
+            if isinstance(m, ast.Name):
+                dc, m = self.model.lookup(ci, m.id)
+            if isinstance(m, ast.FunctionDef):
+                return Bound(Func(m, self.env_of(dc.rel), dc), v)
+            if m is not None:
+                try:
+                    val = ast.literal_eval(m)
+                    return Rat.const(Fr(repr(val))) if isinstance(
+                        val, float) else val
+                except Exception:
+                    pass
         raise Undecided('vector attribute %s' % name)
 
     def ufunc_attr(self, u, name):
@@ -793,6 +823,7 @@ class Interp(object):
         elif x2 is not None:
             raise PyRaise('ValueError')
         out.val = r
+        out.taint = set()
         return out
 
     def prim_multiply(self, x1, x2, out):
@@ -846,7 +877,14 @@ class Interp(object):
                 e = s.exc.func if isinstance(s.exc, ast.Call) else s.exc
                 name = ast.unparse(e)
             raise PyRaise(name, s)
-        if isinstance(s, (ast.Pass, ast.Import, ast.ImportFrom, ast.Global,
+        if isinstance(s, ast.Import):
+            for al in s.names:
+                top = al.name.split('.')[0]
+                if top not in ('numpy',):
+                    scope.vars[al.asname or top] = ModuleV(
+                        al.name if al.asname else top)
+            return
+        if isinstance(s, (ast.Pass, ast.ImportFrom, ast.Global,
                           ast.Nonlocal, ast.Assert)):
             return
         if isinstance(s, ast.FunctionDef):
@@ -960,8 +998,10 @@ class Interp(object):
                         and sl.value is Ellipsis)):
                 if isinstance(v, Vec):
                     obj.val = dict(v.val)
+                    obj.taint = set(v.taint)
                 elif is_scalar(v):
                     obj.val = vs.scale(vs.sym('ONE'), to_rat(v))
+                    obj.taint = set()
                 else:
                     raise Undecided('slice assignment of %r' % (v,))
                 return
@@ -983,13 +1023,21 @@ class Interp(object):
             s.target, ast.Name) else scope.get(s.target.id, self)
         v = self.ev(s.value, scope, func)
         if isinstance(cur, Vec):
+            if self.hooks is not None:
+                self.hooks.on_augassign(self, s, cur, v)
             # in-place element arithmetic
             if isinstance(s.op, ast.Add):
                 self.inplace_add(cur, v, 1)
+                if isinstance(v, Vec):
+                    cur.taint |= v.taint
             elif isinstance(s.op, ast.Sub):
                 self.inplace_add(cur, v, -1)
+                if isinstance(v, Vec):
+                    cur.taint |= v.taint
             elif isinstance(s.op, ast.Mult):
                 if is_scalar(v):
+                    if self.scalar_is_zero(to_rat(v)):
+                        cur.taint |= set(cur.val)
                     cur.val = vs.scale(cur.val, to_rat(v))
                 else:
                     cur.val = vs.mul(cur.val, self.vec_val(v))
@@ -1342,10 +1390,11 @@ class Interp(object):
             raise Undecided('scalar operator %s' % op.__name__)
         lv, rv = isinstance(l, Vec), isinstance(r, Vec)
         if lv and rv:
-            if op is ast.Add:
-                return Vec(vs.add(l.val, r.val), l.space)
-            if op is ast.Sub:
-                return Vec(vs.add(l.val, r.val, -1), l.space)
+            if op in (ast.Add, ast.Sub):
+                res = Vec(vs.add(l.val, r.val, 1 if op is ast.Add else -1),
+                          l.space)
+                res.taint = set(l.taint) | set(r.taint)
+                return res
             if op is ast.Mult:
                 return Vec(vs.mul(l.val, r.val), l.space)
             if op is ast.Div:
@@ -1353,7 +1402,7 @@ class Interp(object):
         if lv and is_scalar(r):
             s = to_rat(r)
             if op is ast.Mult:
-                return Vec(vs.scale(l.val, s), l.space)
+                return self._scaled(l, s)
             if op is ast.Div:
                 return Vec(vs.scale(l.val, Rat.const(1) / s), l.space)
             if op is ast.Add:
@@ -1366,7 +1415,7 @@ class Interp(object):
         if rv and is_scalar(l):
             s = to_rat(l)
             if op is ast.Mult:
-                return Vec(vs.scale(r.val, s), r.space)
+                return self._scaled(r, s)
             if op is ast.Add:
                 return Vec(vs.add(r.val, vs.scale(vs.sym('ONE'), s)), r.space)
             if op is ast.Sub:
@@ -1392,6 +1441,18 @@ class Interp(object):
         if isinstance(l, str) and op is ast.Mod:
             return l
         raise Undecided('operator %s on %r, %r' % (op.__name__, l, r))
+
+    def scalar_is_zero(self, r):
+        return r.is_zero()
+
+    def _scaled(self, v, s):
+        """s * v as a fresh vector; multiplying by a zero scalar *reads* v
+        (0 * NaN = NaN), which is recorded as taint."""
+        res = Vec(vs.scale(v.val, s), v.space)
+        res.taint = set(v.taint)
+        if self.scalar_is_zero(s):
+            res.taint |= set(v.val)
+        return res
 
     # calls -----------------------------------------------------------------------
     def ev_call(self, n, scope, func):
@@ -1675,4 +1736,10 @@ class Hooks(object):
         return NotImplemented
 
     def on_decide(self, interp, cond, node):
+        return NotImplemented
+
+    def on_augassign(self, interp, stmt, cur, value):
+        return None
+
+    def on_name(self, interp, name):
         return NotImplemented
